@@ -110,7 +110,7 @@ instance : PreRel (ScopeGrow (ν := ν)) where
 instance : Stable (ScopeGrow (ν := ν)) where
   heap s h := ScopeGrow.of_scopes_eq rfl
   stack s st cs := ScopeGrow.of_scopes_eq rfl
-  modules s m := ScopeGrow.of_scopes_eq rfl
+  exports s i md e _ := ScopeGrow.of_scopes_eq rfl
 
 theorem scopeGrow_pushFrame (fr : Frame) : Pres ScopeGrow (pushFrame (ν := ν) fr) := by
   unfold Model.pushFrame
@@ -218,7 +218,7 @@ theorem wellScoped_of_scopes_eq {s s' : VM ν} (h : s'.scopes = s.scopes) : Well
 instance : Stable (WellScopedRel (ν := ν)) where
   heap s h := wellScoped_of_scopes_eq rfl
   stack s st cs := wellScoped_of_scopes_eq rfl
-  modules s m := wellScoped_of_scopes_eq rfl
+  exports s i md e _ := wellScoped_of_scopes_eq rfl
 
 theorem wellScoped_put {s : VM ν} {mid : Int} {sc' : Scope} (h : WellScoped s → SortedDepths sc') :
     WellScopedRel s (putScope mid sc' s) := by
